@@ -66,6 +66,8 @@ config!(CEmpty8d, "empty8d", dyn TNone, any_vec::mem::Empty, any_vec::mem::Empty
 config!(CEmpty0c, "empty0c", dyn Cloneable, any_vec::mem::Empty, any_vec::mem::Empty, E0a1d, true, 0, "empty", rawparts, cloneable);
 config!(CStack8c, "stack8c", dyn Cloneable, Stack<24>, Stack::<24>, E8a8d, true, 3, "stack", cloneable);
 #[cfg(feature = "alloc")]
+config!(CHeap8n, "heap8n", dyn TNone, Heap, Heap, E8a8n, false, 0, "heap", resizable, rawparts);
+#[cfg(feature = "alloc")]
 config!(CHeap3n, "heap3n", dyn TNone, Heap, Heap, E3a1n, false, 0, "heap", resizable, rawparts);
 #[cfg(feature = "alloc")]
 config!(CHeap160, "heap160", dyn Cloneable, Heap, Heap, E160a8d, false, 0, "heap", resizable, rawparts, cloneable);
@@ -99,6 +101,9 @@ config!(CStack8x3m, "stack8x3m", dyn TNone, Stack<31>, Stack::<31>, E8a8d, true,
 config!(CStack8x3p, "stack8x3p", dyn TNone, Stack<25>, Stack::<25>, E8a8d, true, 3, "stack");
 config!(CStack8x2p, "stack8x2p", dyn TNone, Stack<23>, Stack::<23>, E8a8d, true, 2, "stack");
 config!(CStackN2, "stackn2", dyn TNone, StackN<2, 17>, StackN::<2, 17>, E8a8d, true, 2, "stackn");
+config!(CStack16x4, "stack16x4", dyn TNone, Stack<64>, Stack::<64>, E16a16d, true, 4, "stack");
+config!(CStack32x4, "stack32x4", dyn TNone, Stack<128>, Stack::<128>, E32a32d, true, 4, "stack");
+config!(CStack64x2, "stack64x2", dyn TNone, Stack<128>, Stack::<128>, E64a64n, true, 2, "stack");
 config!(CStackN3, "stackn3", dyn Cloneable, StackN<3, 24>, StackN::<3, 24>, E8a8d, true, 3, "stackn", cloneable);
 
 fn cfg_json<C: Config>(profile: &str) -> Value {
@@ -351,7 +356,7 @@ fn main() {
         };
     }
     #[cfg(feature = "alloc")]
-    dispatch!(CEmpty8d, CEmpty0c, CHeap8d, CHeap8c, CHeap3c, CHeap0c, CHeap8css, CStack8c, CHeap3n, CHeap160, CHeap0d, CHeap1n, CHeap2d, CHeap12d, CHeap16d, CHeap24d, CHeap32d, CHeap64n, CHeap160a32, CHeap0n, CFence8d, CFence3n, CFence24d, CFence160, CFence0d, CStack24x3, CStackN3, CStack8x3m, CStack8x3p, CStack8x2p, CStackN2);
+    dispatch!(CEmpty8d, CEmpty0c, CHeap8n, CHeap8d, CHeap8c, CHeap3c, CHeap0c, CHeap8css, CStack8c, CHeap3n, CHeap160, CHeap0d, CHeap1n, CHeap2d, CHeap12d, CHeap16d, CHeap24d, CHeap32d, CHeap64n, CHeap160a32, CHeap0n, CFence8d, CFence3n, CFence24d, CFence160, CFence0d, CStack24x3, CStackN3, CStack8x3m, CStack8x3p, CStack8x2p, CStackN2, CStack16x4, CStack32x4, CStack64x2);
     #[cfg(not(feature = "alloc"))]
-    dispatch!(CEmpty8d, CEmpty0c, CStack8c, CFence8d, CFence3n, CFence24d, CFence160, CFence0d, CStack24x3, CStackN3, CStack8x3m, CStack8x3p, CStack8x2p, CStackN2);
+    dispatch!(CEmpty8d, CEmpty0c, CStack8c, CFence8d, CFence3n, CFence24d, CFence160, CFence0d, CStack24x3, CStackN3, CStack8x3m, CStack8x3p, CStack8x2p, CStackN2, CStack16x4, CStack32x4, CStack64x2);
 }
